@@ -12,6 +12,7 @@ def run(tier):
                   limit=LIMIT[tier]) for s in SEMIRINGS]
     specs.append(dict(module="mixed_contraction", limit=4500 if tier == "quick" else None))
     specs.append(dict(module="negred"))
+    specs.append(dict(module="neginf_contraction"))
     rp = replay.run_many("harness.modes:c08", specs, parallel=4)
     out.add_replay(rp, "termmachine")
     # implementation-shaped model of the optimizer's path loop: every path, forced onto the code
